@@ -276,6 +276,12 @@ def specDepGraph (st : Index) : String :=
 
 def cycleStr (c : Cycle) : String := s!"{">".intercalate c.path}@{defShort c.fixture}"
 
+/-- the fixture-name sets of every cycle of every alternative (what a report is "about", whatever
+    its rotation and anchor): `a+b ; c+d+e` -/
+def nodeSets (alts : List (List Cycle)) : String :=
+  let sets := (alts.flatMap (fun cy => cy.map (fun c => "+".intercalate (sortStrs c.path.eraseDups)))).eraseDups
+  " ; ".intercalate (sortStrs sets)
+
 def locStr (l : Loc) : String :=
   if l.line0 == l.endLine0 then s!"{showPath l.file}:{l.line0}:{l.startChar}-{l.endChar}"
   else s!"{showPath l.file}:{l.line0}:{l.startChar}-{l.endLine0}:{l.endChar}"
@@ -642,13 +648,20 @@ def runQ (c : CaseSt) (t : List String) : String × CaseSt :=
   | ["cycles"] =>
     -- the implementation's DFS starts from hash-ordered roots: print every answer some root
     -- order can produce (small graphs) so the comparison is membership
+    -- (more than six names: the enumeration of root orders is incomplete - `ANYOF~`: the comparison
+    -- then accepts an answer that reports the same cycles as one alternative, in another rotation)
+    let partial_ := decide ((namesOf st.defs).length > 6)
     let (alts, st) := st.cyclesAlternatives
-    upd ("ANYOF " ++ " || ".intercalate ((alts.map (fun cy => sorted (cy.map cycleStr))).eraseDups), st)
+    upd ((if partial_ then "ANYOF~ " else "ANYOF ") ++
+      " || ".intercalate ((alts.map (fun cy => sorted (cy.map cycleStr))).eraseDups) ++
+      (if partial_ then " ## " ++ nodeSets alts else ""), st)
   | ["cyclesin", p] =>
+    let partial_ := decide ((namesOf st.defs).length > 6)
     let (alts, st) := st.cyclesAlternatives
     let f := pathOf p
-    upd ("ANYOF " ++ " || ".intercalate
-      ((alts.map (fun cy => sorted ((cy.filter (·.fixture.file == f)).map cycleStr))).eraseDups), st)
+    upd ((if partial_ then "ANYOF~ " else "ANYOF ") ++ " || ".intercalate
+      ((alts.map (fun cy => sorted ((cy.filter (·.fixture.file == f)).map cycleStr))).eraseDups) ++
+      (if partial_ then " ## " ++ nodeSets alts else ""), st)
   | ["dump"] => (dumpStr st, c)
   | q :: _ => (s!"BADQ {q}", c)
   | [] => ("BADQ", c)
